@@ -35,6 +35,8 @@ def obligations(tier):
            bounds="s: every str with len <= 40 (symbolic)"),
         CH("label_roundtrip_table", M, "label_roundtrip", t, functions=F, stubs=[FMT], mode="E1s",
            bounds="every (scale, label) row of the frozen table (selector-enumerated)"),
+        CH("non_label_objects_refused", M, "non_label_objects", t, functions=F[1::2], stubs=[FMT], mode="E1s",
+           bounds="5 scales x 12 objects that are not strings (None, bools, numbers, bytes, containers holding a label, NaN)"),
         CH("answers_do_not_depend_on_history", M, "label_after_history", t, functions=F, stubs=[FMT], mode="E1s",
            bounds="every label of every scale converted first, then offered to each of the 5 scales (after a value conversion for symbolic v in -2..102)"),
     ]
